@@ -6,6 +6,34 @@ from .libcalls import QROf
 from .report import HOLDS, VIOLATED, UNKNOWN
 
 
+def _judge_qr(r, st, order):
+    """(status, detail) for a basis that is the Q factor of a QR decomposition of a matrix V: V must be the L x (order+1) Vandermonde matrix of t."""
+    if r.mode != "reduced":
+        return VIOLATED, f"QR mode is {r.mode!r}, not 'reduced' (Q would not be L x (p+1))"
+    Vm = r.V
+    if isinstance(Vm, LocalArr):
+        # a preallocated matrix filled column by column
+        from .values import local_to_arr
+        Vm = local_to_arr(Vm, st)
+    if not isinstance(Vm, Arr) or Vm.ndim != 2:
+        return UNKNOWN, "Vandermonde matrix not recognised"
+    (nv, nc), (kv, kc) = Vm.axes
+    if not nc.eq(X.var("L")) or kc.as_int() is None:
+        return (UNKNOWN if kc.as_int() is None else VIOLATED), f"basis matrix has shape ({nc!r}, {kc!r}), expected (L, {order + 1})"
+    if kc.as_int() != order + 1:
+        return VIOLATED, f"basis for order {order} has {kc.as_int()} columns, expected {order + 1} (degrees 0..{order})"
+    t = X.const(-1) + X.const(2) * X.var(nv) / (X.var("L") - 1)
+    for k in range(order + 1):
+        col = subst_val(Vm.body, {kv: X.const(k)})
+        want = t.pow(k)
+        if is_opaque(col) or isinstance(col, PV):
+            return UNKNOWN, f"column {k}: {col!r}"[:200]
+        s_, why = compare(to_x(col), want)
+        if s_ != HOLDS:
+            return s_, f"column {k} of the detrend basis is {col!r}, expected t^{k} with t=linspace(-1,1,L) {why}"
+    return HOLDS, ""
+
+
 def analyse(repo, fn):
     """yield (rule, status, detail, line)."""
     KIND["L"] = "nat"
@@ -13,49 +41,116 @@ def analyse(repo, fn):
     for order in (1, 2):
         I = Interp(repo)
         st = St()
-        r = I.call_key("speckit/core.py::_build_Q", [X.var("L"), X.const(order)], {}, st)
+        from . import symalg as _sa
+        # generic segment length (L > order + 1): norms under a square root are positive there; the shortest lengths are instances of their own
+        _sa.GENERIC_ROOTS[0] = True; del _sa.ROOT_ASSUMED[:]
+        try: r = I.call_key("speckit/core.py::_build_Q", [X.var("L"), X.const(order)], {}, st)
+        finally: _sa.GENERIC_ROOTS[0] = False
         tag = f"R6-basis[order={order}]"
-        if isinstance(r, PV) or (not isinstance(r, QROf) and not is_opaque(r)):
-            # not (only) a QR factor: the kernels compute the trend as Q (Q^T x), an orthogonal projection only if Q^T Q = I.
-            # Decide that on concrete small lengths by partial evaluation in exact arithmetic (a counterexample is a violation).
-            bad = None; proved = 0
-            for Lc in (5, 8, 11):
-                g = gram_instance(repo, Lc, order)
-                if g is None: bad = ("unknown", Lc); break
-                if g is True: proved += 1; continue
-                bad = ("violated", Lc, g); break
-            if bad and bad[0] == "violated":
-                out.append((tag, VIOLATED, f"the basis returned for L={bad[1]}, order={order} is not orthonormal: {bad[2]}; Q(Q^T x) is then not the least-squares "
-                            f"polynomial of degree {order}, so a polynomial trend is not removed exactly", fn.lineno)); continue
-            out.append((tag, UNKNOWN, f"_build_Q does not return the Q factor of a QR decomposition on every path ({r!r}); orthonormal on {proved} concrete lengths only"[:300], fn.lineno)); continue
-        if not isinstance(r, QROf):
-            out.append((tag, UNKNOWN, f"_build_Q does not return the Q factor of a QR decomposition: {r!r}"[:200], fn.lineno)); continue
-        if r.mode != "reduced":
-            out.append((tag, VIOLATED, f"QR mode is {r.mode!r}, not 'reduced' (Q would not be L x (p+1))", fn.lineno)); continue
-        Vm = r.V
-        if isinstance(Vm, LocalArr):
-            # a preallocated matrix filled column by column
-            from .values import local_to_arr
-            Vm = local_to_arr(Vm, st)
-        if not isinstance(Vm, Arr) or Vm.ndim != 2:
-            out.append((tag, UNKNOWN, "Vandermonde matrix not recognised", fn.lineno)); continue
-        (nv, nc), (kv, kc) = Vm.axes
-        if not nc.eq(X.var("L")) or kc.as_int() is None:
-            out.append((tag, UNKNOWN if kc.as_int() is None else VIOLATED, f"basis matrix has shape ({nc!r}, {kc!r}), expected (L, {order + 1})", fn.lineno)); continue
-        if kc.as_int() != order + 1:
-            out.append((tag, VIOLATED, f"basis for order {order} has {kc.as_int()} columns, expected {order + 1} (degrees 0..{order})", fn.lineno)); continue
-        t = X.const(-1) + X.const(2) * X.var(nv) / (X.var("L") - 1)
-        status, detail = HOLDS, ""
-        for k in range(order + 1):
-            col = subst_val(Vm.body, {kv: X.const(k)})
-            want = t.pow(k)
-            if is_opaque(col) or isinstance(col, PV):
-                status, detail = UNKNOWN, f"column {k}: {col!r}"[:200]; break
-            s_, why = compare(to_x(col), want)
-            if s_ != HOLDS:
-                status = s_; detail = f"column {k} of the detrend basis is {col!r}, expected t^{k} with t=linspace(-1,1,L) {why}"; break
-        out.append((tag, status, detail, fn.lineno))
+        leaves = [l for _, l in pv_leaves(r)]
+        if all(isinstance(l, QROf) for l in leaves):
+            verdicts = [_judge_qr(l, st, order) for l in leaves]
+            worst = next((v for v in verdicts if v[0] == VIOLATED), None) or next((v for v in verdicts if v[0] == UNKNOWN), None) or verdicts[0]
+            out.append((tag, worst[0], worst[1], fn.lineno)); continue
+        # not (only) a QR factor: the kernels compute the trend as Q (Q^T x), an orthogonal projection only if Q^T Q = I.
+        # (a) every entry is finite for the shortest segments (a closed form may divide by a norm that vanishes for L <= order)
+        deg = None
+        for Lc in (1, 2, 3):
+            f_ = finite_instance(repo, Lc, order)
+            if f_ is not True and f_ is not None: deg = (Lc, f_); break
+        if deg is not None:
+            out.append((tag, VIOLATED, f"the basis for L={deg[0]}, order={order} has a non-finite entry ({deg[1]}): every statistic of such a segment is NaN, "
+                        "although the record is finite", fn.lineno)); continue
+        # (b) per path: a QR factor of the Vandermonde matrix, or a closed form in L with Q^T Q = I and column k of degree k in the sample index
+        #     (proved for every L with the power-sum closed forms)
+        verdicts = []
+        for l in leaves:
+            if isinstance(l, QROf): verdicts.append(_judge_qr(l, st, order))
+            elif symbolic_gram(l, st, order) is True: verdicts.append((HOLDS, ""))
+            else: verdicts.append((UNKNOWN, "closed form not proved orthonormal"))
+        bad_qr = next((v for v, l in zip(verdicts, leaves) if isinstance(l, QROf) and v[0] == VIOLATED), None)
+        if bad_qr is not None:
+            out.append((tag, VIOLATED, bad_qr[1], fn.lineno)); continue
+        if all(v[0] == HOLDS for v in verdicts):
+            out.append((tag, HOLDS, "closed-form basis: Q^T Q = I for every L (power sums in closed form) and column k has degree k in the sample index", fn.lineno)); continue
+        # (c) otherwise on concrete small lengths by partial evaluation in exact arithmetic (a counterexample is a violation).
+        bad = None; proved = 0
+        for Lc in (5, 8, 11):
+            g = gram_instance(repo, Lc, order)
+            if g is None: bad = ("unknown", Lc); break
+            if g is True: proved += 1; continue
+            bad = ("violated", Lc, g); break
+        if bad and bad[0] == "violated":
+            out.append((tag, VIOLATED, f"the basis returned for L={bad[1]}, order={order} is not orthonormal: {bad[2]}; Q(Q^T x) is then not the least-squares "
+                        f"polynomial of degree {order}, so a polynomial trend is not removed exactly", fn.lineno)); continue
+        out.append((tag, UNKNOWN, f"_build_Q does not return the Q factor of a QR decomposition on every path ({r!r}); orthonormal on {proved} concrete lengths only"[:300], fn.lineno))
     return out
+
+
+def _basis_arr(r, st):
+    from .values import local_to_arr
+    if isinstance(r, LocalArr): r = local_to_arr(r, st)
+    return as_arr(r) if r is not None and not is_opaque(r) and not isinstance(r, PV) else None
+
+
+def finite_instance(repo, Lc, order):
+    """True if every entry of the basis for the concrete length Lc is a finite number, a description of the first entry that is not
+    (division by an exactly vanishing norm), None if not evaluable."""
+    I = Interp(repo); st = St()
+    try:
+        r = I.call_key("speckit/core.py::_build_Q", [X.const(Lc), X.const(order)], {}, st)
+    except ZeroDivisionError:
+        return "division by zero while building the basis"
+    except Exception:
+        return None
+    if isinstance(r, QROf): return True
+    for ev in st.events:
+        if ev[0] == "div":
+            bx = to_x(ev[1]) if not is_opaque(ev[1]) and not isinstance(ev[1], (PV, Arr, ArrParam, LocalArr)) else None
+            if bx is not None and bx.constval() is not None and bx.iszero():
+                return f"division by {' '.join(ast.unparse(ev[2].right).split())[:60]} = 0"
+        if ev[0] == "sqrt":
+            ax_ = to_x(ev[1]) if not is_opaque(ev[1]) and not isinstance(ev[1], (PV, Arr, ArrParam, LocalArr)) else None
+            c_ = ax_.constval() if ax_ is not None else None
+            if c_ is not None and c_.im == 0 and c_.re < 0:
+                return f"square root of {' '.join(ast.unparse(ev[2].args[0]).split())[:60]} = {c_.re} < 0"
+    A = _basis_arr(r, st)
+    if A is None: return None
+    return True
+
+
+def symbolic_gram(r, st, order):
+    """True if the symbolic basis (length L) has orthonormal columns of degree 0..order; None if not decided."""
+    from . import symalg as _sa
+    A = _basis_arr(r, st)
+    if A is None or A.ndim != 2: return None
+    (nv, nc), (kv, kc) = A.axes
+    if not nc.eq(X.var("L")) or kc.as_int() != order + 1: return None
+    cols = []
+    for k in range(order + 1):
+        c = subst_val(A.body, {kv: X.const(k)})
+        if is_opaque(c) or isinstance(c, PV) or to_x(c) is None: return None
+        cols.append(to_x(c))
+    _sa.FAULHABER[0] = True; _sa.GENERIC_ROOTS[0] = True
+    try:
+        for a in range(order + 1):
+            for b in range(a, order + 1):
+                try: tot = mk_sum(nv, X.var("L"), cols[a] * cols[b])
+                except Unknown: return None
+                st_, _ = compare(tot, X.const(1 if a == b else 0))
+                if st_ != HOLDS: return None
+        # degree of column k in the sample index: the (k+1)-th finite difference vanishes, the k-th does not
+        for k, c in enumerate(cols):
+            d = c
+            for _ in range(k): d = d.subst({nv: X.var(nv) + 1}) - d
+            if d.iszero(): return None                       # degree below k
+            d = d.subst({nv: X.var(nv) + 1}) - d
+            if not d.iszero(): return None                   # degree above k
+    except Unknown:
+        return None
+    finally:
+        _sa.FAULHABER[0] = False; _sa.GENERIC_ROOTS[0] = False
+    return True
 
 
 def gram_instance(repo, Lc, order):
@@ -66,7 +161,7 @@ def gram_instance(repo, Lc, order):
     except Exception:
         return None
     if isinstance(r, QROf): return True
-    A = as_arr(r) if not is_opaque(r) and not isinstance(r, PV) else None
+    A = _basis_arr(r, None)
     if A is None or A.ndim != 2: return None
     (nv, nc), (kv, kc) = A.axes
     if nc.as_int() != Lc or kc.as_int() is None: return None
